@@ -38,6 +38,9 @@ def max(arr, axis=None):
     if isinstance(arr, np.ndarray):
         return np.max(arr, axis=axis)
     else:
+        # torch.amax(dim=()) reduces over every dimension; numpy treats an empty axis tuple as a no-op.
+        if axis is not None and len(axis) == 0:
+            return arr
         return torch.amax(arr, dim=axis)
 
 
